@@ -22,10 +22,44 @@ TOLERANCES = {
 ASSUMPTIONS = ["reference model + AD trusted after self-test", "cases whose reference step has a rotational norm >= 0.9 or cond(H_ff) > 1e10 are discarded and counted"]
 
 
+def _dead_reckoned(g):
+    """A dead-reckoned start: every vertex sits exactly where the odometry chain puts it (whole / dyadic numbers, no rotation), so
+    every chain edge has an error of exactly 0.0 and the gradient blocks of the vertices the loop closures do not touch are exactly
+    zero - while the Gauss-Newton step, which spreads the loop-closure error along the chain, is not."""
+    rnd = g.rnd
+    base = g.choice(["r2", "r3", "se2"])
+    d = R.PDIM[base]
+    n = g.integer(3, 8)
+    tail = [0.0] if base == "se2" else []
+    truth = [[float(rnd.randint(-16, 16)) / 4.0 for _ in range(d)] + tail for _ in range(n)]
+    c = R.CDIM[base]
+
+    def info():
+        return np.diag([rnd.choice([0.5, 1.0, 2.0, 4.0]) for _ in range(c)]).tolist()
+
+    edges = []
+    for i in range(n - 1):
+        edges.append({"t": "odo", "fl": None, "ids": [i, i + 1], "z": {"k": base, "v": [b - a for a, b in zip(truth[i][:d], truth[i + 1][:d])] + tail}, "off": None, "info": info(), "layout": "C", "np_ids": False})
+    for _ in range(g.integer(1, 2)):
+        i, j = sorted(rnd.sample(range(n), 2))
+        if j - i < 2:
+            i, j = 0, n - 1
+        noise = [rnd.choice([-0.5, -0.125, 0.125, 0.25, 1.0]) for _ in range(d)]
+        edges.append({"t": "odo", "fl": None, "ids": [i, j], "z": {"k": base, "v": [b - a + e for a, b, e in zip(truth[i][:d], truth[j][:d], noise)] + tail}, "off": None, "info": info(), "layout": "C", "np_ids": False})
+    fix_first = g.boolean()
+    fixed = [False] * n
+    if not fix_first:
+        fixed[rnd.randrange(n)] = True
+    verts = [{"id": i, "p": {"k": base, "v": list(truth[i])}, "fixed": fixed[i], "truth": list(truth[i]), "role": "pose"} for i in range(n)]
+    return {"base": base, "verts": verts, "edges": edges, "fix_first": fix_first, "n_steps": 1, "alias": [], "restart": False, "meta": {"npose": n, "nlm": 0, "nloops": len(edges) - (n - 1), "noise": [0.0, 0.0], "pert": [0.0, 0.0], "cond": 1.0, "world": 1.0, "feats": ["dead-reckoned-start"], "tree": "chain", "init_displacement": 0.0}}
+
+
 @S.composite
 def strategy_(g):
     if g.rnd.random() < 0.004:
         return HG.gen(g)
+    if g.choice([False] * 15 + [True]):
+        return _dead_reckoned(g)
     case = GG.gen(g, n_pose=(2, 8), n_lm=(0, 3), n_loops=(0, 3), conds=(1.0, 1e2, 1e3), noise=(0.05, 0.05), pert=(0.3, 0.3))
     case["n_steps"] = g.choice([1, 1, 2, 3])
     # multi-start: the same edge objects were already used in an earlier Graph with OTHER Vertex objects (same ids) that moved since
